@@ -42,7 +42,8 @@ PROPS.update({
               "File I/O, json and pickle are outside the deductive engine; the round-trip contract (same type, nodes, records, weightedness, weights, all metadata; saved "
               "object unchanged) is evaluated on an exhaustively enumerated small scope plus seeded random objects; hMETIS files are generated from a grammar, HIF documents "
               "from the record types. Bounded, not a proof.", "DESIGN.md §7 C06"),
-    "C07": _b("contract-based deductive verification (AST->VC, z3) of the table-domain invariants the hash relies on, after every mutator of the four containers + bounded run-time contract "
+    "C07": _b("contract-based deductive verification (AST->VC, z3) of expose_attributes_for_hashing of the four containers (the hash pre-image is a term over the abstract view only) and of the "
+              "table-domain invariants it relies on after every mutator + bounded run-time contract "
               "checking of hash_hypergraph: equal-content history pairs hash equal, every single-element edit hashes different, hashing is pure",
               "Equality direction over 15 history variants per content (orders, detours through removed hyperedges and nodes), difference direction over every single edit, for all "
               "four container types on an enumerated small scope plus random contents. SHA-256 collision resistance is assumed.", "DESIGN.md §7 C07"),
@@ -56,8 +57,10 @@ PROPS.update({
     "C09": _b("bounded run-time contract checking of every matrix/tensor function entry by entry against the definition under the returned mapping",
               "scipy.sparse / LabelEncoder code is outside the deductive engine; all hypergraphs on <= 4 nodes (six label/weight variants), all temporal hypergraphs with <= 3 timed "
               "hyperedges, seeded random larger ones, every order present or absent, keep_isolated_nodes both ways.", "DESIGN.md §7 C09"),
-    "C10": _b("bounded run-time contract checking of the projections and the simplicial complex against set-builder definitions",
-              "networkx-based code is outside the deductive engine; every clause of the statement is evaluated on all small hypergraphs (and directed ones) of a stated scope and on "
+    "C10": _b("bounded run-time contract checking of the projections and the simplicial complex against set-builder definitions + contract-based deductive verification (AST->VC, z3) "
+              "of the similarity kernels intersection / jaccard_similarity / jaccard_distance",
+              "The values the line graphs threshold and carry as weights (|a & b|, |a & b| / |a | b|, one minus it; ZeroDivisionError exactly for two empty sets) are proved for all sets. The "
+              "networkx-based projections themselves are outside the deductive engine; every clause of the statement is evaluated on all small hypergraphs (and directed ones) of a stated scope and on "
               "seeded random ones, for all 12 (distance, threshold, weighted) configurations.", "DESIGN.md §7 C10"),
     "C05": dict(level="exploration",
                 technique="contract-based deductive verification (AST->VC, z3) of Hypergraph.subhypergraph / subhypergraph_by_orders / copy + bounded run-time contract checking of every extraction route",
